@@ -219,6 +219,12 @@ class MessageManager(interfaces.TokenInterface, interfaces.MessageManager):
         """If the message is the response can be used to satisfy a future
         duplicate message, store it."""
 
+        if message.mtype not in (ACK, RST):
+            # Only ACKs and RSTs carry the message ID of the peer's message;
+            # anything else has a message ID from our own number space, which
+            # must not be confused with the peer's.
+            return
+
         key = (message.remote, message.mid)
         if key in self._recent_messages:
             self._recent_messages[key] = message
